@@ -91,7 +91,9 @@ CORRUPTIONS = ["flip-quote", "flip-quote-report-data", "flip-quote-signature", "
                "failing-branch-listed-before-the-quote",
                "failing-branch-listed-before-the-quote",
                "att-key-off-the-curve-with-a-chord-signature",
-               "att-key-off-the-curve-with-a-chord-signature"]
+               "att-key-off-the-curve-with-a-chord-signature",
+               "leaf-of-another-curve-sharing-x-with-the-p256-signer",
+               "leaf-of-another-curve-sharing-x-with-the-p256-signer"]
 
 
 # process time zones of the shards (None: as inherited, UTC in this sandbox): validity is a
@@ -273,6 +275,34 @@ def corrupt(rng, m, doc, kind):
         # other custom data, report data left as it was
         q["custom_data"] = g.powhsm_message(rng)[0].hex()
         return d, root, "quote"
+    if kind == "leaf-of-another-curve-sharing-x-with-the-p256-signer":
+        # the last certificate holds a secp256k1 key whose x (and y parity) are those of a
+        # P-256 point whose private key the signer of the attestation key's report holds:
+        # read as a compressed P-256 key it is that point - but the certificate certifies no
+        # P-256 key at all
+        from cryptography.hazmat.primitives.asymmetric import ec as _ec
+        K1_P = 2 ** 256 - 2 ** 32 - 977
+        for _ in range(64):
+            sk2 = g.new_key(rng)
+            nums = sk2.public_key().public_numbers()
+            x_, y_ = nums.x, nums.y
+            if x_ >= K1_P:
+                continue
+            rhs = (pow(x_, 3, K1_P) + 7) % K1_P
+            yk = pow(rhs, (K1_P + 1) // 4, K1_P)
+            if (yk * yk) % K1_P != rhs:
+                continue
+            if yk % 2 != y_ % 2:
+                yk = K1_P - yk
+            k1_pub = _ec.EllipticCurvePublicNumbers(x_, yk, _ec.SECP256K1()).public_key()
+            i_ = len(m.certs) - 1
+            issuer_key = m.root_key if i_ == 0 else m.cert_keys[i_ - 1]
+            issuer_cn = "root" if i_ == 0 else "ca%d" % (i_ - 1)
+            c2 = g.make_cert("ca%d" % i_, k1_pub, issuer_cn, issuer_key, serial=97, ca=False)
+            certs[i_]["message"] = g.pem_body(c2)
+            a["signature"] = g.sign_der(sk2, bytes.fromhex(a["message"])).hex()
+            return d, root, "attestation"
+        return None
     if kind == "att-key-off-the-curve-with-a-chord-signature":
         # an "attestation key" that is no point of P-256, certified like any key (report
         # data = SHA-256(x || y || auth data), report body signed by the last certificate's
